@@ -164,6 +164,43 @@ Proof.
 Qed.
 Print Assumptions C13_processors_once_per_model.
 
+(* 7. Match-rule processors (model.py process_match, run while the object tree is built): for
+   every parse subtree of a match-rule value, every registration set and processor behaviour,
+   the calls are the post-order of the subtree - children left to right, innermost first -
+   and the value is the bottom-up conversion result; over the match values of a build in the
+   order process_node reaches them the logs concatenate; a registered node is called after
+   all its children, on the concatenation of their results. *)
+Theorem C13_match_postorder : forall mreg mproc t log,
+  pmatch mreg mproc t log = (log ++ mevents mreg mproc t, mval mreg mproc t).
+Proof. exact pmatch_spec. Qed.
+Print Assumptions C13_match_postorder.
+
+Theorem C13_match_left_to_right : forall mreg mproc ts log,
+  pmatch_forest mreg mproc ts log = log ++ flat_map (mevents mreg mproc) ts.
+Proof. exact pmatch_forest_spec. Qed.
+Print Assumptions C13_match_left_to_right.
+
+Theorem C13_match_innermost_first : forall mreg mproc r k ks,
+  mreg r = true ->
+  mevents mreg mproc (PNode r (PCons k ks)) =
+  (mevents mreg mproc k ++ mevents_kids mreg mproc ks) ++ [(r, mval mreg mproc k ++ mvals mreg mproc ks)].
+Proof. intros mreg mproc r k ks H. exact (mevents_node mreg mproc r (PCons k ks) H). Qed.
+Print Assumptions C13_match_innermost_first.
+
+(* WWW(3): WW(2) '+' WW(2); WW: W(1) ('-' W)?; all three registered, W upper-cases (here: appends
+   33 "!"), on the text w4-w5+w6 *)
+Example C13_nonvacuous_match :
+  let t := PNode 3 (PCons (PNode 2 (PCons (PTerm 1 [119;52]%N) (PCons (PTerm 0 [45]%N) (PCons (PTerm 1 [119;53]%N) PNil))))
+                   (PCons (PTerm 0 [43]%N) (PCons (PNode 2 (PCons (PTerm 1 [119;54]%N) PNil)) PNil))) in
+  let mreg := fun r => Nat.leb 1 r in
+  let mproc := fun (r : nat) (s : list N) => if Nat.eqb r 1 then s ++ [33]%N else s in
+  pmatch mreg mproc t [] =
+  ([(1, [119;52]%N); (1, [119;53]%N); (2, [119;52;33;45;119;53;33]%N); (1, [119;54]%N); (2, [119;54;33]%N);
+    (3, [119;52;33;45;119;53;33;43;119;54;33]%N)],
+   [119;52;33;45;119;53;33;43;119;54;33]%N).
+Proof. vm_compute. reflexivity. Qed.
+Print Assumptions C13_nonvacuous_match.
+
 (* Non-vacuity: a model  Model{shapes=[Circle c1, Box b1{items=[Circle c2]}], ref->c2, v=5}
    with `shapes`/`items` typed by the abstract rule Shape(3), `v` typed by Val(5) which has an
    INT alternative; processors on Circle(1) Box(2) Shape(3) Model(0) Val(5); Circle's
